@@ -140,9 +140,9 @@ func Spec() *run.Spec {
 			}, Run: scanNested, Batch: 3, CPUBudgetS: 60, Env: plainEnv},
 			{Name: "field", Cases: func(t string) int {
 				if t == "thorough" {
-					return 300 + manyBlockCases(t) + historyCases(t) + pfStressCases(t) + seamCases(t) + tieCases(t)
+					return 300 + manyBlockCases(t) + historyCases(t) + pfStressCases(t) + seamCases(t) + tieCases(t) + exactBoundCases(t)
 				}
-				return 16 + manyBlockCases(t) + historyCases(t) + pfStressCases(t) + seamCases(t) + tieCases(t)
+				return 16 + manyBlockCases(t) + historyCases(t) + pfStressCases(t) + seamCases(t) + tieCases(t) + exactBoundCases(t)
 			}, Run: fieldCase, Batch: 1, CPUBudgetS: 900, Parallel: 12, Env: plainEnv},
 			{Name: "race-scan", Race: true, Cases: func(t string) int {
 				if t == "thorough" {
